@@ -333,7 +333,7 @@ class Prover:
         self.queries += 1
         return r != z3.unsat
 
-    def prove(self, pc, goal, timeout_ms=None):
+    def prove(self, pc, goal, timeout_ms=None, early_refute=None):
         """-> (status, detail, seconds).  The sequence solver is unstable on identical input, so the
         budget is split over several random seeds; `unsat` from any attempt is a proof, `sat`
         from any attempt is a counter-model, otherwise undecided.  Budgets are z3 resource units
@@ -363,6 +363,19 @@ class Prover:
                 pass
             if r != z3.unknown:
                 break
+            if early_refute is not None and not cand_tried and budget >= unit // 40:
+                # a cheap counter-model search before the expensive attempts (the theory's refutation pass)
+                cand_tried = True
+                try:
+                    mdl = early_refute()
+                except Exception:
+                    mdl = None
+                if mdl is not None:
+                    self.last_model = mdl
+                    dt = time.time() - t
+                    self.time += dt
+                    self.queries += 1
+                    return FAILED, "early-refuted", dt
             if self.candidate_models and budget >= unit // 100 and not cand_tried:
                 # E-matching only (no model-based instantiation): if the instantiation saturates
                 # without a contradiction the remaining model is a counter-model of the VC with the
@@ -857,7 +870,9 @@ class Exec:
         return Conc(n.value)
 
     def e_JoinedStr(self, n):
-        # f-string: evaluate nothing (message construction is abstracted)
+        # f-string: evaluate nothing (message construction is abstracted) unless the theory models formatted text
+        if hasattr(self.theory, "joined_str"):
+            return self.theory.joined_str(self, n)
         return OPAQUE_STR
 
     def e_Name(self, n):
@@ -1250,7 +1265,14 @@ class FuncVC:
                     sv = self.prover._solver(1000, pc, [z3.Not(goal)])
                     with open("/tmp/pyvc_dump_%d.smt2" % len(results), "w") as fh:
                         fh.write("; " + name + " path " + " ".join(path.labels) + "\n" + sv.sexpr() + "\n(check-sat)\n")
-                status, detail, dt = self.prover.prove(pc, goal)
+                er = None
+                if hasattr(self.theory, "refute"):
+                    er = (lambda pc=pc, goal=goal: self.theory.refute(self.prover, pc, goal))
+                status, detail, dt = self.prover.prove(pc, goal, early_refute=er)
+                if status == FAILED and detail == "early-refuted":
+                    mdl = self.prover.last_model
+                    detail = ("counter-model of the VC found with the spec functions unfolded (sequence lengths <= 3): " +
+                              ", ".join(f"{d.name()}={mdl[d]}" for d in list(mdl.decls())[:30] if d.arity() == 0))[:3000]
                 if status != DISCHARGED:
                     detail = f"path[{' '.join(path.labels)}] " + detail
                 if status == UNDECIDED and hasattr(self.theory, "refute"):
